@@ -7,6 +7,9 @@ From FV Require Import Base OutputM LinkData.
 From FVP Require Import OutputM_proofs LinkData_proofs.
 Import ListNotations.
 
+(* ------------------------------------------------------------------ *)
+(** ** Time *)
+
 (** For every history [l] of publications with strictly increasing times (payloads of any type)
     and every request time [t]:  an empty history gives the no-data error; a request before the
     oldest retained or after the newest publication gives the time error; every request in
@@ -25,10 +28,164 @@ Theorem C08_nearest :
     end.
 Proof. intros A. exact (@nearest A). Qed.
 
+(** The same through the link: a pull at [t] (including the eviction it triggers) answers with
+    [Input._convert_and_check] of a nearest publication, or refuses as above, leaving the
+    history untouched. *)
+Theorem C08_link_pull :
+  forall (g : gridspec) (ui : uspec) (s : lstate) (t : Z),
+    increasing (st_hist s) ->
+    match st_hist s with
+    | [] => lpull g ui s t = (s, RNoData)
+    | (t0, _) :: r =>
+        ((t < t0)%Z \/ (last_time t0 r < t)%Z -> lpull g ui s t = (s, RTime))
+        /\ ((t0 <= t <= last_time t0 r)%Z ->
+            exists tp e, In (tp, e) (st_hist s) /\ snd (lpull g ui s t) = deliver g ui e
+              /\ forall x, In x (st_hist s) -> (Z.abs (tp - t) <= Z.abs (fst x - t))%Z)
+    end.
+Proof. exact link_pull_nearest. Qed.
+
 Example C08_nearest_nonvacuous :
   increasing [(0, 10); (5, 11); (14, 12)]%Z
   /\ map (interpolate [(0, 10); (5, 11); (14, 12)]%Z) [-1; 0; 2; 3; 9; 10; 14; 15]%Z
      = [ErrTime; Ok 10; Ok 10; Ok 11; Ok 11; Ok 12; Ok 12; ErrTime]%Z.
 Proof. split; [simpl; repeat split; reflexivity|vm_compute; reflexivity]. Qed.
 
+(* ------------------------------------------------------------------ *)
+(** ** Payload: shape, values, units, mask *)
+
+(** Domain.  [has_form g sh f]: the payload's shape [sh] is one of the accepted forms for grid [g]
+    - [FShaped]: the grid's data shape (NoGrid: right rank, fixed axes agree),
+    - [FTimed]: the same with a leading axis of length one,
+    - [FFlat] (grids): one axis of [data_size] elements,
+    - [FStacked k] (grids, k >= 2): k time entries at once (finam accepts this; the delivered
+      array then has k leading entries - the only form whose leading axis is not one).
+    Scalars are [FShaped] on [NoGrid()], lists are arrays; masked arrays have [a_mask = Some _];
+    quantities have [p_units = Some _].
+
+    For every payload of the domain published under metadata [inf] (grid, producer units, mask)
+    and pulled by a consumer with compatible units [ui]:  [prepare] accepts it, the pull delivers
+    an array of shape [form_k f :: cell] ([1 :: consumer data shape] for all forms but
+    [FStacked]) in the consumer's units; its element [j, idx] equals (in Q) the affine
+    conversion  producer units -> consumer units  of the published element that belongs to
+    entry [j], cell [idx] ([src_pos]: flat payloads are laid out in the grid's order, F or C);
+    its mask bit there is the demanded one (the payload's own bit for masked payloads, else the
+    bit of the metadata's mask at cell [idx], none if no mask is demanded).
+    Unit side conditions: non-zero factors, and units identified by [equivalent_units] have
+    equal offsets ([relabel_safe]; without it relabelling would not be exact). *)
+Theorem C08_payload :
+  forall (inf : info) (ui : uspec) (p : payload) (f : form),
+    wf_grid (i_grid inf) -> wf_arr (p_arr p) -> wf_mask inf (cell (i_grid inf) (a_shape (p_arr p)) f) ->
+    has_form (i_grid inf) (a_shape (p_arr p)) f -> units_ok inf p -> mask_ok (i_mask inf) (p_arr p) = true ->
+    compatible (i_units inf) ui = true ->
+    unit_ok (i_units inf) -> unit_ok ui ->
+    relabel_safe (producer_units (i_units inf) (p_units p)) ui -> relabel_safe (i_units inf) ui ->
+    exists e d,
+      prepare inf p = POk e /\ deliver (i_grid inf) ui e = RArr d ui
+      /\ a_shape d = form_k f :: cell (i_grid inf) (a_shape (p_arr p)) f
+      /\ forall j idx, (j < form_k f)%nat -> in_range idx (cell (i_grid inf) (a_shape (p_arr p)) f) ->
+           aget d (j :: idx)
+           == convert (producer_units (i_units inf) (p_units p)) ui
+                (nth (src_pos (i_grid inf) f (a_shape (p_arr p)) j idx) (a_data (p_arr p)) 0%Q)
+           /\ mget d (j :: idx) = demanded_mask inf (p_arr p) f j idx.
+Proof. exact payload_accepted. Qed.
+
+(** Everything else is refused by [prepare] (hence by [push_data]): a quantity in units of another
+    dimension (DataError); a plain payload whose size does not fit the explicit mask of the
+    metadata (numpy's MaskError); a payload whose shape is none of the forms (DataError). *)
+Theorem C08_payload_refused :
+  forall (inf : info) (p : payload),
+    wf_grid (i_grid inf) ->
+    (forall u, p_units p = Some u -> compatible u (i_units inf) = false -> prepare inf p = PErr EData)
+    /\ (units_ok inf p -> mask_ok (i_mask inf) (p_arr p) = false -> prepare inf p = PErr EMask)
+    /\ (units_ok inf p -> mask_ok (i_mask inf) (p_arr p) = true ->
+        (forall f, ~ has_form (i_grid inf) (a_shape (p_arr p)) f) -> prepare inf p = PErr EData).
+Proof. exact payload_refused. Qed.
+
+(** The accepted shapes are exactly the forms: [_check_input_shape] succeeds iff some form fits. *)
+Theorem C08_forms_exact :
+  forall (g : gridspec) (sh : list nat),
+    wf_grid g -> (check_shape g sh <> None <-> exists f, has_form g sh f).
+Proof.
+  intros g sh Hwf. split.
+  - destruct (check_shape g sh) as [lay|] eqn:E; [intros _; exact (accepted_form g sh lay Hwf E)|congruence].
+  - intros [f Hf]. rewrite (form_accepted g sh f Hwf Hf). discriminate.
+Qed.
+
+(** Non-vacuity: km published flat on an F-ordered 2x3 grid with an explicit mask, read in cm. *)
+Definition ex_m := mkU [1; 0; 0]%Z 1 0.
+Definition ex_km := mkU [1; 0; 0]%Z 1000 0.
+Definition ex_cm := mkU [1; 0; 0]%Z (1 # 100) 0.
+Definition ex_inf := mkI (GStruct [2; 3]%nat true) ex_m (MBits [false; true; false; false; false; false]).
+Definition ex_pl := mkP (mkA [6]%nat [0; 1; 2; 3; 4; 5]%Q None) (Some ex_km) (Some (0%nat, 0, 48)%Z).
+Example C08_payload_nonvacuous :
+  wf_grid (i_grid ex_inf) /\ wf_arr (p_arr ex_pl) /\ wf_mask ex_inf [2; 3]%nat
+  /\ has_form (i_grid ex_inf) [6]%nat FFlat /\ units_ok ex_inf ex_pl /\ mask_ok (i_mask ex_inf) (p_arr ex_pl) = true
+  /\ compatible ex_m ex_cm = true /\ equivalent ex_km ex_cm = false /\ equivalent ex_m ex_cm = false
+  /\ (match prepare ex_inf ex_pl with
+      | POk e => match deliver (i_grid ex_inf) ex_cm e with
+                 | RArr d _ => (a_shape d, map Qred (a_data d), a_mask d)
+                 | _ => ([], [], None) end
+      | PErr _ => ([], [], None) end)
+     = ([1; 2; 3]%nat, [0; 200000; 400000; 100000; 300000; 500000]%Q, Some [false; true; false; false; false; false]).
+Proof.
+  repeat split; try (vm_compute; reflexivity); try discriminate.
+  - repeat constructor.
+Qed.
+
+Example C08_refused_nonvacuous :
+  prepare ex_inf (mkP (mkA [5]%nat [0; 1; 2; 3; 4]%Q None) None None) = PErr EMask
+  /\ prepare (mkI (GStruct [2; 3]%nat true) ex_m MFlex) (mkP (mkA [3; 2]%nat [0; 1; 2; 3; 4; 5]%Q None) None None) = PErr EData
+  /\ prepare ex_inf (mkP (mkA [2; 3]%nat [0; 1; 2; 3; 4; 5]%Q None) (Some (mkU [0; 1; 0]%Z 1 0)) None) = PErr EData.
+Proof. repeat split; vm_compute; reflexivity. Qed.
+
+(* ------------------------------------------------------------------ *)
+(** ** Memory sharing *)
+
+(** Whatever the state of the output: a payload that [prepare] accepts is refused with DataError,
+    the history unchanged, if its memory overlaps the memory of the previously published entry
+    ([shares]: same allocation, overlapping bounds - what [np.may_share_memory] tests); otherwise
+    it is appended and becomes the previously published entry.  Pulls (with their eviction)
+    never change which entry that is.  The memory of a stored entry is the payload's own unless
+    [prepare] had to convert units (then it is fresh and shares with nothing). *)
+Theorem C08_sharing :
+  forall (inf : info) (s : lstate) (t : Z) (p : payload) (e : entry),
+    prepare inf p = POk e ->
+    (forall e0, last_entry (st_hist s) = Some e0 -> shares (e_buf e0) (e_buf e) = true ->
+       lpush inf s t p = (s, Some EData))
+    /\ ((forall e0, last_entry (st_hist s) = Some e0 -> shares (e_buf e0) (e_buf e) = false) ->
+        lpush inf s t p = (push s t e, None) /\ last_entry (st_hist (push s t e)) = Some e)
+    /\ (forall g u t', last_entry (st_hist (fst (lpull g u s t'))) = last_entry (st_hist s))
+    /\ e_buf e = match p_units p with
+                 | Some u => if equivalent u (i_units inf) then p_buf p else None
+                 | None => p_buf p
+                 end.
+Proof.
+  intros inf s t p e Hp. destruct (sharing_rule inf s t p e Hp) as [H1 H2].
+  split; [exact H1|]. split; [exact H2|]. split; [intros; apply lpull_last|apply prepare_buf; exact Hp].
+Qed.
+
+(** identity tokens: the same (non-empty) buffer always shares with itself *)
+Theorem C08_sharing_identity :
+  forall (i : nat) (lo hi : Z), (lo < hi)%Z -> shares (Some (i, lo, hi)) (Some (i, lo, hi)) = true.
+Proof. exact shares_self. Qed.
+
+Example C08_sharing_nonvacuous :
+  let inf := mkI (GNo [None]) ex_m MFlex in
+  let pl b u := mkP (mkA [2]%nat [1; 2]%Q None) u b in
+  lrun (mkC inf ex_m) linit
+    [LPush 0 (pl (Some (0%nat, 0, 16)%Z) None);     (* a *)
+     LPush 1 (pl (Some (0%nat, 0, 16)%Z) None);     (* a again: refused *)
+     LPush 2 (pl (Some (0%nat, 8, 24)%Z) None);     (* overlapping view: refused *)
+     LPush 3 (pl (Some (0%nat, 16, 32)%Z) None);    (* neighbouring view: accepted *)
+     LPush 4 (pl (Some (0%nat, 16, 32)%Z) (Some ex_km)); (* converted: fresh memory, accepted *)
+     LPush 5 (pl (Some (1%nat, 0, 16)%Z) None)]     (* other allocation: accepted *)
+  = [OPush None; OPush (Some EData); OPush (Some EData); OPush None; OPush None; OPush None].
+Proof. vm_compute. reflexivity. Qed.
+
 Print Assumptions C08_nearest.
+Print Assumptions C08_link_pull.
+Print Assumptions C08_payload.
+Print Assumptions C08_payload_refused.
+Print Assumptions C08_forms_exact.
+Print Assumptions C08_sharing.
+Print Assumptions C08_sharing_identity.
